@@ -260,3 +260,111 @@ func init() {
 }
 
 var _ = fmt.Sprintf
+
+func init() {
+	reg("C15-R7", "the slot directory is read where it is written: each getter/setter pair of TablePage (tuple offset, tuple size, tuple count, free-space pointer) addresses the page bytes with the same linear expression of the slot number; the offset and the size field of a slot do not overlap and the stride covers both; getFreeSpaceRemaining subtracts exactly the start of the slot directory and one stride per slot from the free-space pointer; InsertTuple lowers the free-space pointer by the tuple's size and setTuple stores, for the slot, the very position it copied the bytes to and the tuple's size", func(w *World, r *Report) {
+		a := w.A()
+		pure := map[*types.Func]bool{w.MethodObj("storage/tuple", "Tuple", "Size"): true}
+		for _, nm := range []string{"GetFreeSpacePointer", "GetTupleCount"} {
+			pure[w.MethodObj("storage/access", "TablePage", nm)] = true
+		}
+		// address expression: the Low of the first slice of page bytes in the accessor
+		addr := func(name string) (LinForm, bool) {
+			fn := w.Fn("storage/access", "TablePage", name)
+			for _, b := range fn.Blocks {
+				for _, in := range b.Instrs {
+					if sl, ok := in.(*ssa.Slice); ok && sl.Low != nil && DependsOn(sl.X, a.isPageDataSource) {
+						return linForm(sl.Low, nil, 0), true
+					}
+				}
+			}
+			return LinForm{}, false
+		}
+		pairs := [][2]string{{"GetTupleOffsetAtSlot", "SetTupleOffsetAtSlot"}, {"GetTupleSize", "SetTupleSize"}, {"GetTupleCount", "SetTupleCount"}, {"GetFreeSpacePointer", "SetFreeSpacePointer"}}
+		forms := map[string]LinForm{}
+		for _, p := range pairs {
+			g, ok1 := addr(p[0])
+			s, ok2 := addr(p[1])
+			if !ok2 {
+				// setters that go through Page.Copy(offset, bytes)
+				fn := w.Fn("storage/access", "TablePage", p[1])
+				EachCall(fn, func(c ssa.CallInstruction) {
+					if CalleeObj(c) == a.PageCopy && !ok2 {
+						s, ok2 = linForm(c.Common().Args[1], nil, 0), true
+					}
+				})
+			}
+			forms[p[0]] = g
+			r.Check(ok1 && ok2 && g.Equal(s), "TablePage:"+p[0]+"/"+p[1]+":same-address", p[0]+" reads the bytes "+p[1]+" writes", fmt.Sprintf("getter addresses [%s], setter addresses [%s]", g, s))
+		}
+		off, size := forms["GetTupleOffsetAtSlot"], forms["GetTupleSize"]
+		stride := int64(0)
+		for _, c := range off.T {
+			stride = c
+		}
+		sameStride := len(off.T) == 1 && len(size.T) == 1 && off.Sub(size).IsZero() == false && len(off.Sub(size).T) == 0
+		gap := size.C - off.C
+		r.Check(sameStride && gap >= 4 && stride >= gap+4, "TablePage:slot-fields-do-not-overlap", "the offset and size fields of a slot are 4 bytes apart and the stride covers both", fmt.Sprintf("offset field at [%s], size field at [%s]", off, size))
+		// free-space formula
+		fr := w.Fn("storage/access", "TablePage", "getFreeSpaceRemaining")
+		var got LinForm
+		okRet := false
+		for _, b := range fr.Blocks {
+			if ret, ok := b.Instrs[len(b.Instrs)-1].(*ssa.Return); ok && len(ret.Results) == 1 {
+				got, okRet = linForm(retOperand(ret, 0), pure, 0), true
+			}
+		}
+		want := LinForm{-off.C, map[string]int64{"GetFreeSpacePointer(" + fr.Params[0].Name() + ")": 1, "GetTupleCount(" + fr.Params[0].Name() + ")": -stride}}
+		r.Check(okRet && got.Equal(want), "TablePage.getFreeSpaceRemaining:formula", "free space = free-space pointer − start of the slot directory − stride × tuple count", fmt.Sprintf("computed [%s], layout says [%s]", got, want))
+		// InsertTuple / setTuple
+		ins := w.SSA(a.TPInsert)
+		setFSP := w.MethodObj("storage/access", "TablePage", "SetFreeSpacePointer")
+		n := 0
+		for _, s := range sitesCalling(ins, setFSP) {
+			n++
+			c := s.(*ssa.Call)
+			f := linForm(c.Call.Args[1], pure, 0)
+			var tupleP *ssa.Parameter
+			for _, p := range ins.Params {
+				if strings.HasSuffix(p.Type().String(), "tuple.Tuple") {
+					tupleP = p
+				}
+			}
+			want := LinForm{0, map[string]int64{"GetFreeSpacePointer(" + ins.Params[0].Name() + ")": 1}}
+			if tupleP != nil {
+				want.T["Size("+tupleP.Name()+")"] = -1
+			}
+			r.Check(f.Equal(want), "TablePage.InsertTuple:free-space-pointer-lowered-by-tuple-size"+itoaOrd(n), "the free-space pointer moves down by exactly the size of the inserted tuple", fmt.Sprintf("new pointer [%s], expected [%s]", f, want))
+		}
+		r.Floor("SetFreeSpacePointer sites in InsertTuple", n, 1)
+		st := w.Fn("storage/access", "TablePage", "setTuple")
+		var copies []*ssa.Call
+		EachCall(st, func(c ssa.CallInstruction) {
+			if cc, ok := c.(*ssa.Call); ok && CalleeObj(c) == a.PageCopy {
+				copies = append(copies, cc)
+			}
+		})
+		okSet := len(copies) == 3
+		why := fmt.Sprintf("%d Page.Copy calls in setTuple, expected 3 (bytes, offset field, size field)", len(copies))
+		if okSet {
+			var dataAt ssa.Value
+			var offStored, sizeStored bool
+			for _, c := range copies {
+				at := linForm(c.Call.Args[1], nil, 0)
+				switch {
+				case len(at.T) == 1 && at.C == off.C && DependsOn(c.Call.Args[2], func(x ssa.Value) bool { return dataAt != nil && x == dataAt }):
+					offStored = true
+				case len(at.T) == 1 && at.C == size.C && DependsOn(c.Call.Args[2], IsCallTo(w.MethodObj("storage/tuple", "Tuple", "Size"))):
+					sizeStored = true
+				default:
+					if dataAt == nil {
+						dataAt = stripConv(c.Call.Args[1])
+					}
+				}
+			}
+			okSet = dataAt != nil && offStored && sizeStored
+			why = fmt.Sprintf("bytes copied to a position: %v; that position stored in the slot's offset field: %v; tuple size stored in the slot's size field: %v", dataAt != nil, offStored, sizeStored)
+		}
+		r.Check(okSet, "TablePage.setTuple:slot-describes-the-bytes", "the slot entry written by setTuple holds the position the bytes were copied to and their length", why)
+	})
+}
